@@ -218,7 +218,7 @@ def run(ctx):
                             check_glob(ctx, lib, nodes, idmap, par, ch, names, s, p, "/", ic, case, uniq, hk)
     ctx.exhaustive.append("all %d patterns of <=3 components over {a,b,*,?,a*,**,..,zz,.} (relative and absolute) and of 4 components over {a,*,**,..} x every start x all trees <=4 nodes x name assignments x ignorecase" % len(pats))
     # ---- random
-    nrand = (48000 if T else 2400) // ctx.nshards + 1
+    nrand = (150000 if T else 2400) // ctx.nshards + 1
     seps = ["/", "|", "::", "\\", "->", "#", "/"]
     for r in range(nrand):
         rng = ctx.rng("rand", r)
@@ -250,7 +250,7 @@ def run(ctx):
             ctx.case((r, s, p, ic, hk), nontrivial=p != "", sample=dict(case, start=s, pattern=p, ignorecase=ic, history=hk) if (r * 30 + q) % 4001 == 0 else None)
             check_glob(ctx, lib, nodes, idmap, par, ch, names, s, p, sep, ic, case, uniq, hk)
     # ---- explicit cache histories: the same query inside many different call sequences
-    nh = (3000 if T else 300) // ctx.nshards + 1
+    nh = (20000 if T else 300) // ctx.nshards + 1
     for h in range(nh):
         rng = ctx.rng("hist", h)
         n = rng.randint(2, 8)
@@ -290,7 +290,7 @@ def mutation_histories(ctx, lib):
     from .. import trees as TR
 
     T = ctx.tier == "thorough"
-    nh = (2000 if T else 200) // ctx.nshards + 1
+    nh = (20000 if T else 200) // ctx.nshards + 1
     pool = ["a", "b", "A", "ab", "a.b", "c", "n1", "a+"]
     for h in range(nh):
         rng = ctx.rng("mhist", h)
@@ -300,7 +300,8 @@ def mutation_histories(ctx, lib):
             res = lib.Resolver("name")
         names = None
         renames = []
-        for nodes, par, ch, case in TR.evolving_universe(ctx, rng, "Node", k, rng.randint(4, 14), fault_rate=(0.3 if h % 2 else 0.0)):
+        hfam = ("Node", "LM", "NM", "Node")[h % 4]
+        for nodes, par, ch, case in TR.evolving_universe(ctx, rng, hfam, k, rng.randint(4, 14), fault_rate=(0.3 if h % 2 else 0.0)):
             if names is None:
                 names = [n.name for n in nodes]
             for _ in range(rng.randint(0, 2)):
